@@ -195,9 +195,13 @@ def guardsMeetContract : Bool :=
       o.guards.head? == some ("safelyWrite@" ++ refOf o.recv) && o.held.contains "opMu:W" && o.held.contains "renameMu:R"
     else if o.what == "Walk" || o.what == "WalkGetAttr" then
       (o.chain.head? == some "walkOne" &&
-        (o.guards.head? == some "safelyRead@walkRef" || o.guards.head? == some "safelyReadParent@ref") &&
+        -- (the File walked from is a parameter of walkOne: the guard is the caller's, on whatever its
+        --  reference variable is called)
+        (match o.guards.head? with
+          | some g => g.startsWith "safelyRead@" || g.startsWith "safelyReadParent@"
+          | none => false) &&
         o.held.contains "opMu:R") ||
-      (o.chain.contains "txattrwalk.handle" && o.guards.head? == some "safelyRead@ref" && o.held.contains "opMu:R")
+      (o.chain.contains "txattrwalk.handle" && o.guards.head? == some ("safelyRead@" ++ refOf o.recv) && o.held.contains "opMu:R")
     else if readClass.contains o.what || o.what == "GetAttr" then
       o.guards.head? == some ("safelyRead@" ++ refOf o.recv) && o.held.contains "opMu:R" && o.held.contains "renameMu:R"
     else false
